@@ -3,6 +3,7 @@ package props
 import (
 	"context"
 	"fmt"
+	"strings"
 	"time"
 
 	mcp "trpc.group/trpc-go/trpc-mcp-go"
@@ -17,7 +18,31 @@ import (
 // one and concurrent use of Session objects.
 
 func init() {
-	register(&Scenario{Prop: "C20", Run: runC20, Opts: sim.Options{MaxSteps: 150000, MaxSimTime: 40 * time.Minute}})
+	register(&Scenario{Prop: "C20", Run: runC20, Post: postC20, Opts: sim.Options{MaxSteps: 150000, MaxSimTime: 40 * time.Minute}})
+}
+
+// postC20 adds the one conflicting access the detector cannot see in this build because net/http's
+// server is a stub: use of an http.ResponseWriter after (or while) its handler returns.  In a real
+// server that is an unsynchronised access to the response's bufio.Writer, which net/http finishes
+// and recycles at that moment (DESIGN.md §2.4); the stub records it instead.
+func postC20(c *Ctx, res *sim.Result) []sim.Violation {
+	var out []sim.Violation
+	seen := map[string]bool{}
+	for _, e := range res.LibEvents {
+		if !strings.Contains(e, "http.ResponseWriter used after the handler returned") {
+			continue
+		}
+		where := "handler-returned-during-write"
+		if i := strings.LastIndex(e, "["); i >= 0 && strings.HasSuffix(e, "]") {
+			where = e[i+1 : len(e)-1]
+		}
+		sig := "C20|race|responsewriter-after-handler-return|" + where
+		if !seen[sig] {
+			seen[sig] = true
+			out = append(out, sim.Violation{Sig: sig, Msg: e, Step: res.Steps})
+		}
+	}
+	return out
 }
 
 func runC20(c *Ctx) {
